@@ -696,6 +696,17 @@ class Evaluator(object):
                 v_ = a_ + b_ if node['op'] == '+' else (a_ * b_ if node['op'] == '*' else a_ - b_)
                 if v_ >= 0:
                     return ('lit', str(v_))  # arithmetic on literals (named constants read through) is its value
+            UNS = ('u8', 'u16', 'u32', 'u64', 'u128', 'usize')
+            lt_, rt_ = (node['l'].get('ty') or '').lstrip('&'), (node['r'].get('ty') or '').lstrip('&')
+            if lt_ in UNS and rt_ in UNS and l is not None and r is not None:
+                # an unsigned value compared with 0 / 1 only asks whether it is 0: `x > 0`, `x >= 1`, `0 < x`, `x != 0` are one test
+                zero, one = ('lit', '0'), ('lit', '1')
+                op = node['op']
+                nz = (op == '>' and r == zero) or (op == '<' and l == zero) or (op == '>=' and r == one) or (op == '<=' and l == one)
+                z = (op == '<=' and r == zero) or (op == '>=' and l == zero) or (op == '<' and r == one) or (op == '>' and l == one)
+                if nz or z:
+                    x_ = l if (r in (zero, one)) else r
+                    return ('bin', '!=' if nz else '==', x_, zero)
             if node['op'] in ('*', '+') and l is not None and r is not None and show(r) < show(l):
                 nums = set(H._INTS) | {'std::time::Duration'}
                 lt, rt = (node['l'].get('ty') or '').lstrip('&'), (node['r'].get('ty') or '').lstrip('&')
